@@ -202,6 +202,9 @@ func checkC16(c *Check) {
 				if g.X != nil && g.X.K == "range" && g.X.Name == "ok" {
 					continue // being inside the iteration
 				}
+				if g.Expanded {
+					continue // a predicate helper: its implied conditions are judged
+				}
 				switch g.Op {
 				case "value", "call":
 					// hasRUL (field or accessor)
